@@ -174,6 +174,8 @@ BAD = ["", " ", "1.5x", "[1,", "{", "}", "]", "[1, 2", '{"k": }', "{a: 1", "- x"
        '{"m": {"class_path": "SubA", "init_args": {"p": "x"}}}', '{"i": "x"}', '{"i": null}', '{"li": 5}', '{"li+": 5}', '{"li+": [1]}', '{"d": {"k": "x"}}', '{"t": [1]}', '{"__path__": 1}',
        '{"g": {"h": {"y": .inf}}}', '{"g": {"h": {"y": -.inf}}}', '{"g": {"h": {"y": 1e999}}}', '{"g": {"h": {"y": .nan}}}', '{"i": .inf}', '{"li": [.inf]}', '{"dc": {"inner": {"a": .inf}}}', '{"f": .inf}',
        "\u00b2", "-\u00b2", "\u2460\u2461", "9" * 4400, "-" + "9" * 4400, '{"i": \u00b2}', '{"dc": "\u00b2"}', '{"dc": {"inner": "\u00b2"}}',
+       "@D@/bin.yaml", '{"cfg": "@D@/bin.yaml"}', "a\x00b", '{"cfg": "a\\u0000b"}', '{"dc": "a\\u0000b"}', '{"s": "a\\u0000b"}', "[" * 600 + "]" * 600, '{"li": ' + "[" * 600 + "]" * 600 + '}',
+       '{"any": {"class_path": "a.b.c"}}', '{"d": {.inf: 1}}',
        '{"i": 1, "i": 2}', '[]', '5', 'null', '"str"', "@file", "file:///x", "http://x", "~", "~nouser/x", "1" * 40, "9" * 400, "-", "--", "-x", "--zz", "-1", "1e400", "-.inf", ".nan",
        "\\", "'", '"', "a'b", 'a"b', "é", "😀", "\ud800", "a\x85b", "a b", "a=b", "a:b", "#", "a #b", "`", "$HOME", "${x}", "%s", "{0}", "[[]]", "{{}}", "[{}]", '{"": 1}', '{" ": 1}', '{"a.b": 1}',
        '{"a..b": 1}', '{".a": 1}', '{"a b": 1}', '{"+": 1}', '{"a+": 1}', '{"items": 1}', '{"keys": {"x": 1}}', '{"__dict__": 1}', '{"__class__": 1}']
@@ -248,6 +250,8 @@ def prepare_files(d):
         f.write(f"cfg: {os.path.join(d, 'ok.yaml')}\n")
     with open(os.path.join(d, "data.txt"), "w") as f:
         f.write("1\n2\nx\n")
+    with open(os.path.join(d, "bin.yaml"), "wb") as f:
+        f.write(b"\xff\xfei: 1\n")  # not valid UTF-8
 
 
 PLACEHOLDER = "@D@"  # cases are stored with the scratch directory abstracted away, so that replays are location independent
@@ -327,8 +331,8 @@ RECURSIVE_ALIAS = __import__("re").compile(r"&(\w+)[^&]*\*\1")
 
 def excluded(case):
     s = json.dumps(case["input"], default=repr)
-    if "\\u0000" in s:
-        return "NUL character (cannot occur on a command line or in the environment)"
+    if "\\u0000" in s and case["channel"] in ("argv", "env"):
+        return "NUL character on a command line or in the environment (the OS interfaces cannot carry it)"
     if case["channel"] != "string" and __import__("re").search(r"\\ud[89ab][0-9a-f]{2}", s):
         return "lone surrogate outside a config text (OS interfaces cannot carry it; in a config text it is handled, F36)"
     return None
